@@ -368,8 +368,14 @@ class ScipyOptimizeDriver(Driver):
                     
                     if linear:
                         # LinearConstraint
-                        con = LinearConstraint(A=lincongrad[self._con_idx[name]],
-                                               lb=lb, ub=ub, keep_feasible=True)
+                        lin_idx = self._con_idx[name]
+                        A = lincongrad[lin_idx:lin_idx + size]
+                        # scipy's LinearConstraint is lb <= A x <= ub, so the constant term of
+                        # the affine constraint (in driver units) has to be moved to the bounds.
+                        y0 = np.asarray(self._con_cache[name]).ravel() - A @ x_init
+                        lb = np.where(lb <= -INF_BOUND, -np.inf, lb - y0)
+                        ub = np.where(ub >= INF_BOUND, np.inf, ub - y0)
+                        con = LinearConstraint(A=A, lb=lb, ub=ub, keep_feasible=True)
                         constraints.append(con)
                     else:
                         # NonlinearConstraint
